@@ -68,6 +68,20 @@ def cloneRaisesL : List VPat → Bool
   | a :: rest => cloneRaises a || cloneRaisesL rest
 end
 
+mutual
+/-- the `Constant` patterns (value and both tolerances) inside a value pattern -/
+def constsV : VPat → List ConstPat
+  | .const _ c => [c]
+  | .orB _ _ _ _ alts => constsL alts
+  | _ => []
+def constsL : List VPat → List ConstPat
+  | [] => []
+  | a :: rest => constsV a ++ constsL rest
+end
+
+/-- the `Constant` patterns among the inputs of a node pattern, in input order -/
+def NPat.consts (n : NPat) : List ConstPat := constsL (n.inputs.filterMap id)
+
 inductive CommuteErr where
   | valueError       -- BacktrackingOr.__init__: "tag_var must be specified if tag_values is provided."
   | assertion        -- "commutative swap applies only to binary ops"
